@@ -68,7 +68,7 @@ def run(ctx):
     ctx.rule = ("timed histories of Subscribe (TTL 1,2,3 s, infinite) / StopSubscribe / reboot evidence (alone and with Subscribes in one datagram) / "
                 "listener accept-reject / service stop-start / connection loss / FindService, 3 subscribers x 1-3 instances x eventgroups x counters {0,1,15} x "
                 "0-2 endpoints x extra options, times on deadlines, +-1 tick, anywhere, both tie orders; Subscribe and StopSubscribe for ONE subscription in one "
-                "message (both orders, on and around the deadline of the live subscription); complete traces compared with the model, "
+                "message (both orders, on and around the deadline of the live subscription); a multicast message revealing a reboot and a unicast Subscribe of the same peer in ONE instant; complete traces compared with the model, "
                 "implementation trace judged by check_C06; non-trivial = distinct scenario producing at least one event")
     ctx.assumptions = ["the server listener's decision is a function of the eventgroup id (scenario input)"]
     n = 300 if quick else 12000
@@ -77,6 +77,8 @@ def run(ctx):
         scs += [scen.server_scenario(r, small=True, length=r.randint(1, 5)) for _ in range(3000)]
     r2 = random.Random(ctx.seed * 7919 + 6)       # a stream of its own: the scenarios above stay what they were
     scs += [scen.pair_in_one_message(r2) for _ in range(40 if quick else 1500)]
+    r3 = random.Random(ctx.seed * 7919 + 106)
+    scs += [scen.two_channels_one_instant(r3) for _ in range(30 if quick else 1000)]
     stackprop.run_scenarios(ctx, scs, 3006, CODES, what="server subscriptions")
 
 
